@@ -34,6 +34,14 @@ package clusterinfo
 //@   requires c != nil
 //@   ensures[partial-count] result0 != nil ==> ipartialCount(result1, len(lookupdHTTPAddrs))
 //@   ensures[shape] result1 == nil || ipartial(result1) || result0 == nil
+// (round 4, area D) no POST is issued by the look-up; what it returned is recorded (r4DNP*: most recent all-producers look-up).
+//@   ensures[no-post] r4DPostCount == old(r4DPostCount) && r4DPostFails == old(r4DPostFails) && r4DPosted == old(r4DPosted)
+//@   ensures[partial-nonempty] ipartial(result1) ==> len(unbox(result1, "ErrList")) > 0
+//@   onreturn r4DNPCalls := r4DNPCalls + 1
+//@   onreturn r4DNPKind := "lookupd"
+//@   onreturn r4DNPAddrs := lookupdHTTPAddrs
+//@   onreturn r4DNPRes := result0
+//@   onreturn r4DNPErr := result1
 // The map filled by the workers only ever receives non-nil producers (proved for the worker:
 // GetLookupdProducers$1/invariant[map]); assumed here because the workers' writes are not modelled.
 //@   loop 1
@@ -44,6 +52,16 @@ package clusterinfo
 //@   requires c != nil
 //@   ensures[partial-count] result0 != nil ==> ipartialCount(result1, len(lookupdHTTPAddrs))
 //@   ensures[shape] result1 == nil || ipartial(result1) || result0 == nil
+// (round 4, area D) no POST is issued by the look-up; what it returned is recorded for the callers' contracts (r4DTP*: most recent
+// topic-producer look-up - which kind, for which topic, at which addresses, what came back; zz_contracts_r4D_verif.go).
+//@   ensures[no-post] r4DPostCount == old(r4DPostCount) && r4DPostFails == old(r4DPostFails) && r4DPosted == old(r4DPosted)
+//@   ensures[partial-nonempty] ipartial(result1) ==> len(unbox(result1, "ErrList")) > 0
+//@   onreturn r4DTPCalls := r4DTPCalls + 1
+//@   onreturn r4DTPKind := "lookupd"
+//@   onreturn r4DTPTopic := topic
+//@   onreturn r4DTPAddrs := lookupdHTTPAddrs
+//@   onreturn r4DTPRes := result0
+//@   onreturn r4DTPErr := result1
 
 //@ func (c *ClusterInfo) GetNSQDTopics(nsqdHTTPAddrs []string) ([]string, error)
 //@   props C18
@@ -56,12 +74,30 @@ package clusterinfo
 //@   requires c != nil
 //@   ensures[partial-count] result0 != nil ==> ipartialCount(result1, len(nsqdHTTPAddrs))
 //@   ensures[shape] result1 == nil || ipartial(result1) || result0 == nil
+// (round 4, area D) no POST is issued by the look-up; what it returned is recorded (r4DNP*: most recent all-producers look-up).
+//@   ensures[no-post] r4DPostCount == old(r4DPostCount) && r4DPostFails == old(r4DPostFails) && r4DPosted == old(r4DPosted)
+//@   ensures[partial-nonempty] ipartial(result1) ==> len(unbox(result1, "ErrList")) > 0
+//@   onreturn r4DNPCalls := r4DNPCalls + 1
+//@   onreturn r4DNPKind := "nsqd"
+//@   onreturn r4DNPAddrs := nsqdHTTPAddrs
+//@   onreturn r4DNPRes := result0
+//@   onreturn r4DNPErr := result1
 
 //@ func (c *ClusterInfo) GetNSQDTopicProducers(topic string, nsqdHTTPAddrs []string) (Producers, error)
 //@   props C18
 //@   requires c != nil
 //@   ensures[partial-count] result0 != nil ==> ipartialCount(result1, len(nsqdHTTPAddrs))
 //@   ensures[shape] result1 == nil || ipartial(result1) || result0 == nil
+// (round 4, area D) no POST is issued by the look-up; what it returned is recorded for the callers' contracts (r4DTP*: most recent
+// topic-producer look-up - which kind, for which topic, at which addresses, what came back; zz_contracts_r4D_verif.go).
+//@   ensures[no-post] r4DPostCount == old(r4DPostCount) && r4DPostFails == old(r4DPostFails) && r4DPosted == old(r4DPosted)
+//@   ensures[partial-nonempty] ipartial(result1) ==> len(unbox(result1, "ErrList")) > 0
+//@   onreturn r4DTPCalls := r4DTPCalls + 1
+//@   onreturn r4DTPKind := "nsqd"
+//@   onreturn r4DTPTopic := topic
+//@   onreturn r4DTPAddrs := nsqdHTTPAddrs
+//@   onreturn r4DTPRes := result0
+//@   onreturn r4DTPErr := result1
 
 // GetNSQDStats: "data" = the topic list or the channel map.
 //@ func (c *ClusterInfo) GetNSQDStats(producers Producers, selectedTopic string, selectedChannel string, includeClients bool) ([]*TopicStats, map[string]*ChannelStats, error)
